@@ -96,20 +96,20 @@ let run_case op t =
           | "stoi" -> i32 | _ -> raise Not_found) in
       let is_sto = String.length name >= 3 && String.sub name 0 3 = "sto" in
       let base = next_int t in let s = next_codes t in
-      let m = res_s (fun (v, e) -> join [ str_of_z v; string_of_int (int_of_nat e) ])
+      let m = res_s (fun (v, e) -> join [ "v"; str_of_z v; string_of_int (int_of_nat e) ])
           (strto_m ty s (z_of_int base)) in
       let p =
         if not (dom_strto base) then "na"
         else if is_sto then
           (match sto_spec ty (z_of_int base) s with
-           | Some (v, n) -> join [ str_of_z v; string_of_int (int_of_nat n) ] | None -> "na")
-        else let (v, n) = strto_spec ty (z_of_int base) s in join [ str_of_z v; string_of_int (int_of_nat n) ] in
+           | Some (v, n) -> join [ "v"; str_of_z v; string_of_int (int_of_nat n) ] | None -> "na")
+        else let (v, n) = strto_spec ty (z_of_int base) s in join [ "v"; str_of_z v; string_of_int (int_of_nat n) ] in
       (m, p)
   | "atoi" | "atol" | "atoll" ->
       let ty = if op = "atoi" then i32 else i64 in
       let s = next_codes t in
-      let m = res_s str_of_z (ato_m ty s) in
-      let p = match ato_spec ty s with Some v -> str_of_z v | None -> "na" in
+      let m = res_s (fun v -> join [ "v"; str_of_z v ]) (ato_m ty s) in
+      let p = match ato_spec ty s with Some v -> join [ "v"; str_of_z v ] | None -> "na" in
       (m, p)
   | _ -> raise Not_found
 
